@@ -53,11 +53,22 @@ def full_deps(cfg):
     return out
 
 
+def effective(cfg):
+    """Priorities and sequential flags in force when the DAG runs (after an optional reconfiguration)."""
+    rc = cfg.get("reconf")
+    if not rc:
+        return cfg["prio"], cfg["seq"]
+    prio = [rc["prio"][k] if rc["named"][k] else cfg["prio"][k] for k in range(cfg["n"])]
+    seq = [rc["seq"][k] if rc["named"][k] else cfg["seq"][k] for k in range(cfg["n"])]
+    return prio, seq
+
+
 def documented_cp(cfg):
     """own priority + priorities of the set of distinct descendants (property C06/C07)."""
     deps = full_deps(cfg)
     desc = descendants(cfg["n"], deps)
-    return [cfg["prio"][k - 1] + sum(cfg["prio"][d - 1] for d in desc[k]) for k in range(1, cfg["n"] + 1)]
+    prio, _ = effective(cfg)
+    return [prio[k - 1] + sum(prio[d - 1] for d in desc[k]) for k in range(1, cfg["n"] + 1)]
 
 
 def expected_off(cfg):
@@ -196,9 +207,23 @@ def random_config(rng, nmin=4, nmax=7):
                 same = (prio[a - 1], seq[a - 1], res[a - 1], setup[a - 1]) == (prio[b - 1], seq[b - 1], res[b - 1], setup[b - 1])
                 if same and rng.random() < 0.5 and fn[b - 1] == b:
                     fn[b - 1] = fn[a - 1]
+    if rng.random() < 0.3:
+        sel = {}
+        nodes = list(range(1, n + 1))
+        if rng.random() < 0.7:
+            sel["t"] = rng.sample(nodes, rng.randint(1, min(3, n)))
+        if rng.random() < 0.3:
+            sel["x"] = rng.sample(nodes, 1)
+        if rng.random() < 0.2:
+            roots = [k for k in nodes if not deps[k - 1]]
+            sel["r"] = rng.sample(roots, rng.randint(1, len(roots)))
+        ops = ops[:-1] + [["exec", sel]] if rng.random() < 0.7 else ops + [["exec", sel]]
     cfg = {"n": n, "deps": deps, "mc": mc, "prio": prio, "seq": seq, "res": res, "bad": bad,
            "act": act, "truthy": truthy, "setup": setup, "ops": ops, "kw": kw, "fn": fn,
            "flavour": rng.choice(["sync", "async"])}
+    if rng.random() < 0.25 and fn == list(range(1, n + 1)):
+        cfg["reconf"] = {"prio": [rng.choice([-3, 0, 1, 4, 9]) for _ in range(n)], "seq": [rng.random() < 0.2 for _ in range(n)],
+                         "named": [rng.random() < 0.6 for _ in range(n)], "via": rng.choice(["dict", "json", "yaml"])}
     cfg["cid"] = cfg_key(cfg)
     return cfg
 
@@ -210,20 +235,29 @@ def project(cfg, run):
     deps = full_deps(cfg)
     setup = cfg.get("setup") or [False] * n
     off = expected_off(cfg)
-    base = {"n": n, "mc": cfg["mc"], "deps": deps, "cp": documented_cp(cfg), "seq": cfg["seq"],
+    base = {"n": n, "mc": cfg["mc"], "deps": deps, "cp": documented_cp(cfg), "seq": effective(cfg)[1],
             "res": cfg["res"], "argsrc": argsrc(cfg), "flavour": cfg.get("flavour", "sync")}
     done_setup = set()
     traces = []
     cur = None
-    for ev in run["events"]:
+    events = run["events"]
+    for pos, ev in enumerate(events):
         if ev["e"] == "op":
             if ev["k"] == "setup":
                 sel = [k for k in range(1, n + 1) if setup[k - 1] and k not in done_setup]
+            elif ev["k"] == "exec":
+                # the selection itself is engine E3's subject: take the executed graph as given and check scheduling on it
+                sel = []
+                for later in events[pos + 1:]:
+                    if later["e"] == "exec_begin":
+                        sel = [k for k in later["s"] if k]
+                        break
+                    if later["e"] == "op":
+                        break
             else:
                 sel = [k for k in range(1, n + 1) if k not in done_setup]
-            cur = dict(base, op=ev["k"], sel=sel, off=[k for k in off if k in sel], none=[], ev=[])
-            if ev["k"] == "setup":
-                cur["none"] = []
+            none = [k for k in range(1, n + 1) if k not in sel and k not in done_setup] if ev["k"] == "exec" else []
+            cur = dict(base, op=ev["k"], sel=sel, off=[k for k in off if k in sel], none=none, ev=[])
             traces.append(cur)
         if cur is None:
             continue
